@@ -577,8 +577,8 @@ class ReadSetReader:
             elif op == 4 or op == 5:  # soft or hard clipping
                 pass
             elif op == 3:  # N
-                # Always stop at reference skips
-                return (reference_bases, query_pos)
+                # Always stop at reference skips: only the bases up to the skip are covered
+                return (ref_pos, query_pos)
             else:
                 assert False, "unknown CIGAR operator"
         assert ref_pos < reference_bases
